@@ -638,17 +638,35 @@ def c21_widenbits(R):
     tree = R.tree
     m = tree.mod(SI)
     n = 0
-    for name, raw in util.methods_of(tree.cls(SI, "StridedInterval")).items():
+    methods = util.methods_of(tree.cls(SI, "StridedInterval"))
+    inlined = {}
+
+    def body(name):
+        if name not in inlined:
+            inlined[name] = tree.func_inlined(SI, f"StridedInterval.{name}")
+        return inlined[name]
+
+    def pieces_of(fn):
+        return {
+            st.target.id
+            for st in ast.walk(fn)
+            if isinstance(st, (ast.For, ast.comprehension)) and isinstance(st.target, ast.Name) and re.search(r"\._(s|p)split\(\)$", ast.unparse(st.iter))
+        }
+
+    def cannot_wrap(srcs, pieces, facts):
+        return bool(srcs & pieces) or any(
+            f in (f"{s_}.lower_bound <= {s_}.upper_bound", f"{s_}.upper_bound >= {s_}.lower_bound", f"{s_}.is_integer", f"not {s_}.is_interval") for s_ in srcs for f in facts
+        )
+
+    for name, raw in methods.items():
         if "_bits" not in ast.unparse(raw):
             continue
-        fn = tree.func_inlined(SI, f"StridedInterval.{name}")
+        fn = body(name)
         defs = {}
-        pieces = set()
         for st in ast.walk(fn):
             if isinstance(st, ast.Assign) and len(st.targets) == 1 and isinstance(st.targets[0], ast.Name):
                 defs.setdefault(st.targets[0].id, []).append(st.value)
-            if isinstance(st, (ast.For, ast.comprehension)) and isinstance(st.target, ast.Name) and re.search(r"\._(s|p)split\(\)$", ast.unparse(st.iter)):
-                pieces.add(st.target.id)
+        pieces = pieces_of(fn)
         for st in walk_no_nested(fn):
             tgt = st.targets[0] if isinstance(st, ast.Assign) and len(st.targets) == 1 else (st.target if isinstance(st, ast.AugAssign) else None)
             if not (isinstance(tgt, ast.Attribute) and tgt.attr == "_bits" and isinstance(tgt.value, ast.Name)):
@@ -666,9 +684,33 @@ def c21_widenbits(R):
                 if dotted(v):
                     srcs.add(dotted(v))
             facts = _facts(st)
-            ok = bool(srcs & pieces) or any(
-                f in (f"{s_}.lower_bound <= {s_}.upper_bound", f"{s_}.upper_bound >= {s_}.lower_bound", f"{s_}.is_integer", f"not {s_}.is_interval") for s_ in srcs for f in facts
-            )
+            ok = cannot_wrap(srcs, pieces, facts)
+            selfname = fn.args.args[0].arg if fn.args.args else "self"
+            if not ok and selfname in srcs and name.startswith("_") and not name.startswith("__"):
+                # a private helper that re-widths (a copy of) its receiver: the obligation is its callers', at every call
+                calls = []
+                for cname in methods:
+                    cfn = body(cname)
+                    cp = None
+                    for c in ast.walk(cfn):
+                        if isinstance(c, ast.Call) and isinstance(c.func, ast.Attribute) and c.func.attr == name and cname != name:
+                            cp = pieces_of(cfn) if cp is None else cp
+                            recv = dotted(c.func.value)
+                            calls.append((cname, c, recv is not None and cannot_wrap({recv}, cp, _facts(c))))
+                for cname, c, good in calls:
+                    R.check(
+                        good,
+                        m,
+                        c,
+                        f"{cname}: width overwritten (through {name}) on an object that cannot wrap",
+                        f"StridedInterval.{cname} overwrites the width of `{norm(c.func.value)[:40]}` through {name}() with no dominating "
+                        f"fact that it does not wrap past zero and without it being a south-pole piece: <3>7[1, 0] is {{1, 0}}, the same "
+                        f"bounds at 5 bits are {{1, 8, 15, 22, 29}}",
+                        construct=f"{cname}: width of an interval object overwritten",
+                    )
+                if not calls:
+                    R.ok(m, st, f"{name}: private helper without callers")
+                continue
             R.check(
                 ok,
                 m,
